@@ -123,7 +123,7 @@ CLAIMED["C15"] = (
 CLAIMED["C16"] = (
     "bounded symbolic execution of AffineTransformation (apply / as_matrix) and of superimpose()'s centring and mask logic (superimpose.py loaded through the SX rewrite, rotation solver replaced by an arbitrary symbolic matrix) over exact rationals with z3 (polynomial identities)",
     "Bounded model checking of the ALGEBRAIC clauses of the property only. Class S: for any 3x3 matrix, translations and coordinates (symbolic rationals), apply(x) = R(x + c) + t per model, equal to the 4x4 matrix form; superimpose() with any rotation places the anchor centroid of the mobile structure on that of the fixed one, for every anchor mask of the bound, for arrays and stacks, and the returned transformation reproduces the fitted coordinates. Class E (real numpy / LAPACK on solver-selected concrete inputs): rigid copies of 7 degenerate and regular point sets under 25 rotations are fitted back with a proper orthonormal rotation and RMSD ~ 0 (off-plane atoms are not mirrored); superimpose_without_outliers returns the fit that belongs to its returned anchors (72 parameter combinations); superimpose_homologs on synthetic peptides (120 combinations of sequence edit, displaced residues, chains, stack) pairs anchor atoms of corresponding residues and returns the fit that belongs to them; apply() acts alike on integer / float arrays, stack-shaped arrays and atom arrays.",
-    "Trusted: vf/sx/rnp.py, the rational numpy stand-in (counterexamples are replayed on real numpy), z3; numpy/LAPACK in the E part. NOT decided: RMSD-optimality of the rotation for non-rigid inputs (only necessary conditions: proper rotation, coinciding anchor centroids, exact recovery of rigid copies), RMSD values. Those clauses are undecided by this check.",
+    "Trusted: vf/sx/rnp.py, the rational numpy stand-in (counterexamples are replayed on real numpy), z3; numpy/LAPACK in the E part. NOT decided symbolically: RMSD-optimality of the rotation (LAPACK behind FFI); it is checked on the class-E menus only (rigid copies recovered, deformed copies fitted no worse than the closed-form optimum computed in float64).",
     "DESIGN.md §4 C16")
 
 NOT_APPLICABLE = {
